@@ -18,21 +18,35 @@ def main():
         batch = json.load(f)
     real_out = sys.stdout
     sys.stdout = open(os.devnull, "w")
-    out = []
+    out = [None] * len(batch)
     evs = {}
+    order = list(range(len(batch)))
+    how = os.environ.get("PYAB_CHILD_ORDER", "")
+    if how == "reverse":
+        order.reverse()
+    elif how == "interleave":
+        order = order[1::2] + order[0::2]
+    # compile and decode everything first, then evaluate back to back in the requested order (no allocations of the harness in
+    # between two calls: whatever the library keys on object addresses gets its chance to collide), encode afterwards
+    prepared = []
     for item in batch:
         text = item["text"]
         if text not in evs:
             evs[text] = sut.compile_text(text)
-        res = evs[text]
+        prepared.append((evs[text], M.dec_inputs(item["inputs"])))
+    raw = [None] * len(batch)
+    for pos in order:
+        res, env = prepared[pos]
+        raw[pos] = sut.call(res[1], env) if res[0] == "ok" else None
+    for pos, (res, env) in enumerate(prepared):
         if res[0] != "ok":
-            out.append(["compile-error", res[1]])
+            out[pos] = ["compile-error", res[1]]
             continue
-        o = sut.call(res[1], M.dec_inputs(item["inputs"]))
+        o = raw[pos]
         if o[0] == "group":
-            out.append(["group", M.enc(o[1])])
+            out[pos] = ["group", M.enc(o[1])]
         else:
-            out.append(list(o[:2]))
+            out[pos] = list(o[:2])
     real_out.write(json.dumps({"hashseed": os.environ.get("PYTHONHASHSEED"), "locale": locale.setlocale(locale.LC_ALL),
                                "cwd": os.getcwd(), "results": out}, ensure_ascii=True))
     real_out.flush()
